@@ -146,16 +146,16 @@ def dyadic_grid(draw, min_pts=3, max_pts=20, steps=(0.0625, 0.125, 0.25, 0.5, 1.
 
 # ---------------------------------------------------------------------------------------------------
 # general-rate templates (non-negative on the non-negative orthant; every symbol is a species or a parameter)
-def positive_tree(b, species, smooth=False, time=False):
+def positive_tree(b, species, smooth=False, time=False, step=True):
     """A non-negative rate expression over `species`; parameters are created in the builder as needed."""
     draw = b.draw
     s1 = sym(draw(st.sampled_from(species)))
     s2 = sym(draw(st.sampled_from(species)))
     k = sym(b.new_param(draw(logfl(0.05, 5))))
     K = sym(b.new_param(draw(logfl(0.3, 8))))
-    choices = ["mm", "inhib", "prod_sat", "poly", "expdecay", "ratio2"]
+    choices = ["mm", "inhib", "prod_sat", "poly", "expdecay", "ratio2", "log1p"]
     if not smooth:
-        choices += ["min", "max", "absdiff", "step"]
+        choices += ["min", "max", "absdiff"] + (["step"] if step else [])
     if time:
         choices += ["t_decay", "t_sat"]
     c = draw(st.sampled_from(choices))
@@ -171,6 +171,8 @@ def positive_tree(b, species, smooth=False, time=False):
         return ["mul", k, ["exp", ["neg", ["div", s1, K]]]]
     if c == "ratio2":
         return ["div", ["mul", k, ["pow", s1, num(2)]], ["add", ["pow", K, num(2)], ["pow", s1, num(2)]]]
+    if c == "log1p":
+        return ["mul", k, ["log", ["add", num(1), s1]]]
     if c == "min":
         return ["mul", k, ["min", s1, K]]
     if c == "max":
@@ -187,7 +189,7 @@ def positive_tree(b, species, smooth=False, time=False):
 
 
 def any_reaction(b, species, types=ref.PROP_TYPES, max_reactants=4, max_products=4, delay_prob=4, smooth=False,
-                 time=False):
+                 time=False, step=True):
     """A structurally arbitrary reaction (no dynamical constraints)."""
     draw = b.draw
     typ = draw(st.sampled_from(list(types)))
@@ -198,7 +200,7 @@ def any_reaction(b, species, types=ref.PROP_TYPES, max_reactants=4, max_products
     elif typ in ref.HILL_TYPES:
         rx = hill(b, typ, reactants, products, draw(st.sampled_from(species)), draw(st.sampled_from(species)))
     else:
-        rx = general(reactants, products, positive_tree(b, species, smooth=smooth, time=time))
+        rx = general(reactants, products, positive_tree(b, species, smooth=smooth, time=time, step=step))
     if delay_prob and draw(st.integers(0, delay_prob - 1)) == 0:
         rx["delay"] = draw_delay(b, species)
     return rx
@@ -206,12 +208,12 @@ def any_reaction(b, species, types=ref.PROP_TYPES, max_reactants=4, max_products
 
 @st.composite
 def structural_models(draw, min_rx=1, max_rx=5, types=ref.PROP_TYPES, delay_prob=4, smooth=False, time=False,
-                      max_species=5, integer_x0=False):
+                      max_species=5, integer_x0=False, step=True):
     species = draw(species_names(2, max_species))
     species = list(draw(st.permutations(species)))
     b = Builder(draw, species)
     for _ in range(draw(st.integers(min_rx, max_rx))):
-        b.reactions.append(any_reaction(b, species, types, delay_prob=delay_prob, smooth=smooth, time=time))
+        b.reactions.append(any_reaction(b, species, types, delay_prob=delay_prob, smooth=smooth, time=time, step=step))
     if integer_x0:
         x0 = {s: float(draw(st.integers(0, 12))) for s in species}
     else:
